@@ -62,6 +62,37 @@ type c17data struct {
 
 func c17sig(b byte) core.Signature { return core.Signature(bytes.Repeat([]byte{b}, 96)) }
 
+// c17v is the stored value: content (ID) plus signature, so that two values can agree in one and differ in the other.
+// Value number b has content b; its signature is that of value b&^0x10, i.e. values b and b|0x10 carry the SAME
+// signature over DIFFERENT content (a store compares complete values, not signatures).
+type c17v struct {
+	ID  byte           `json:"id"`
+	Sig core.Signature `json:"sig"`
+}
+
+func c17mk(b byte) c17v { return c17v{ID: b, Sig: c17sig(b &^ 0x10)} }
+
+func (v c17v) Signature() core.Signature { return v.Sig }
+func (v c17v) SetSignature(s core.Signature) (core.SignedData, error) {
+	v.Sig = append(core.Signature(nil), s...)
+	return v, nil
+}
+func (v c17v) MessageRoot() ([32]byte, error) { return [32]byte{v.ID}, nil }
+func (v c17v) Clone() (core.SignedData, error) {
+	return c17v{ID: v.ID, Sig: append(core.Signature(nil), v.Sig...)}, nil
+}
+func (v c17v) MarshalJSON() ([]byte, error) {
+	return []byte(fmt.Sprintf(`{"id":%d,"sig":"%x"}`, v.ID, []byte(v.Sig))), nil
+}
+
+// c17id is the identity of a value seen by the oracle: its content number.
+func c17id(v core.SignedData) byte {
+	if x, ok := v.(c17v); ok {
+		return x.ID
+	}
+	return v.Signature()[0]
+}
+
 var (
 	c17D1 = core.Duty{Slot: 10, Type: core.DutyProposer}
 	c17D2 = core.Duty{Slot: 11, Type: core.DutyAttester}
@@ -118,12 +149,12 @@ func c17scenario(impl, name string, ops []c17op, clock []time.Duration, expire m
 			case "W":
 				w := &c17write{name: op.name, key: op.key, val: c17sig(op.val)}
 				d.writes = append(d.writes, w)
-				set := core.SignedDataSet{op.key.pk: w.val}
+				set := core.SignedDataSet{op.key.pk: c17mk(op.val)}
 				var w2 *c17write
 				if op.key2 != nil {
 					w2 = &c17write{name: op.name + "b", key: *op.key2, val: c17sig(op.val2)}
 					d.writes = append(d.writes, w2)
-					set[op.key2.pk] = w2.val
+					set[op.key2.pk] = c17mk(op.val2)
 				}
 				x.Go(op.name, func(t *schedx.T) {
 					w.tStart = x.Now()
@@ -179,7 +210,7 @@ func c17show(v core.SignedData, err error) string {
 	if v == nil {
 		return "nil"
 	}
-	return fmt.Sprintf("v%x", v.Signature()[0])
+	return fmt.Sprintf("v%x", c17id(v))
 }
 
 // c17dump is the canonical dump of the implementation's private state (state key for pruning).
@@ -187,7 +218,7 @@ func c17dump(d *c17data) string {
 	var keys []string
 	add := func(data map[memDBKey]core.SignedData) {
 		for k, v := range data {
-			keys = append(keys, fmt.Sprintf("%v/%s=%x", k.duty, k.pubKey, v.Signature()[0]))
+			keys = append(keys, fmt.Sprintf("%v/%s=%x", k.duty, k.pubKey, c17id(v)))
 		}
 	}
 	extra := ""
@@ -217,7 +248,7 @@ func c17present(d *c17data) map[c17key]byte {
 		data = db.data
 	}
 	for k, v := range data {
-		out[c17key{k.duty, k.pubKey}] = v.Signature()[0]
+		out[c17key{k.duty, k.pubKey}] = c17id(v)
 	}
 	return out
 }
@@ -316,7 +347,7 @@ func c17check(x *schedx.Exec, impl string) []schedx.Violation {
 		got := map[c17key]byte{}
 		for _, r := range d.reads {
 			if r.done && r.err == nil {
-				b := r.val.Signature()[0]
+				b := c17id(r.val)
 				if o, ok := got[r.key]; ok && o != b {
 					out = append(out, schedx.Violation{Signature: fmt.Sprintf("impl=%s kind=readers-disagree", impl),
 						Description: fmt.Sprintf("two reads of one key returned v%x and v%x", o, b)})
@@ -343,7 +374,7 @@ func c17check(x *schedx.Exec, impl string) []schedx.Violation {
 				// maybe only a failed (conflicting) write exists: the value must still come from some store call
 				ok := false
 				for _, w := range d.writes {
-					if w.key == r.key && bytes.Equal(w.val, r.val.Signature()) {
+					if w.key == r.key && bytes.Equal(w.val, c17sig(c17id(r.val))) {
 						ok = true
 					}
 				}
@@ -353,7 +384,7 @@ func c17check(x *schedx.Exec, impl string) []schedx.Violation {
 				}
 				continue
 			}
-			if !bytes.Equal(f.val, r.val.Signature()) {
+			if !bytes.Equal(f.val, c17sig(c17id(r.val))) {
 				out = append(out, schedx.Violation{Signature: fmt.Sprintf("impl=%s kind=read-wrong-value", impl),
 					Description: fmt.Sprintf("%s returned %s but the value stored first under its key is v%x (by %s)", r.name, c17show(r.val, nil), f.val[0], f.name)})
 			}
@@ -407,6 +438,9 @@ func c17scenarios() []*schedx.Scenario {
 		add("2r-2keys-2w", []c17op{R("R1", c17K1), R("R2", c17K2), W("W1", c17K1, 1), W("W2", c17K2, 2)}, nil, nil)
 		add("2r-sameduty-2w", []c17op{R("R1", c17K1), R("R2", c17K3), W("W1", c17K1, 1), W("W2", c17K3, 2)}, nil, nil)
 		add("r-conflicting-writes", []c17op{R("R1", c17K1), W("W1", c17K1, 1), W("W2", c17K1, 2)}, nil, nil)
+		// different content under the same signature bytes is different data all the same
+		add("r-conflicting-writes-same-signature", []c17op{R("R1", c17K1), W("W1", c17K1, 1), W("W2", c17K1, 0x11)}, nil, nil)
+		add("w-w-same-signature-r", []c17op{W("W1", c17K1, 0x11), W("W2", c17K1, 1), R("R1", c17K1)}, nil, nil)
 		add("r-equal-writes", []c17op{R("R1", c17K1), W("W1", c17K1, 1), W("W2", c17K1, 1)}, nil, nil)
 		add("r-cancel-w", []c17op{R("R1", c17K1), C("C1", "R1"), W("W1", c17K1, 1)}, nil, nil)
 		add("2r-cancel-one-w", []c17op{R("R1", c17K1), R("R2", c17K1), C("C1", "R1"), W("W1", c17K1, 1)}, nil, nil)
